@@ -25,7 +25,7 @@ func init() { core.Register(prop{}) }
 func (prop) ID() string    { return "C13" }
 func (prop) Level() string { return "exploration" }
 func (prop) Rule() string {
-	return "scenario = one structurally generated ClientHello (legacy version SSL3..TLS1.2, 1..40 cipher suites incl. GREASE and SCSV values, 0..20 extensions: known types with well-formed bodies, unknown types, GREASE types, empty bodies, duplicated types except supported_groups/ec_point_formats/server_name, supported_groups with GREASE, 0..3 point formats, with/without SNI from a pool of 6 names), split into 1..4 TLS records and seeded TCP segments, sent to the real https service through the dispatcher; every third scenario is the previous hello with each GREASE value replaced by another GREASE value. Non-trivial = the connection's event was captured; distinct by sha of the hello. Values that resemble GREASE without being it (0x?a?a with different bytes, one byte of a pair, neighbours) are generated on purpose; every fourth scenario is a sibling of an earlier hello on the same service instance that differs in exactly one fingerprint field. The SNI pool contains a mixed-case name."
+	return "scenario = one structurally generated ClientHello (legacy version SSL3..TLS1.2, 1..40 cipher suites incl. GREASE and SCSV values, 0..20 extensions: known types with well-formed bodies, unknown types, GREASE types, empty bodies, duplicated types except supported_groups/ec_point_formats/server_name, supported_groups with GREASE, 0..3 point formats, with/without SNI from a pool of 6 names), split into 1..4 TLS records and seeded TCP segments, sent to the real https service through the dispatcher; every third scenario is the previous hello with each GREASE value replaced by another GREASE value. Non-trivial = the connection's event was captured; distinct by sha of the hello. Values that resemble GREASE without being it (0x?a?a with different bytes, one byte of a pair, neighbours) are generated on purpose; every fourth scenario is a sibling of an earlier hello on the same service instance that differs in exactly one fingerprint field. The SNI pool contains a mixed-case name. Batch hellos-concurrent: the first hellos again, 16 connections at a time."
 }
 func (prop) Assumptions() []string {
 	return []string{"every generated hello is well-formed for the service's parser (null compression offered, empty renegotiation_info)", "the handshake is not completed: the client reads the server flight and closes; the event of the failed handshake carries digest and server name"}
